@@ -1,7 +1,7 @@
 #!/bin/sh
 # one line per benign patch: silent / UNDEC (exit 0, some obligations reported undecided) / EXIT2 (analysis broken) / ALARM (false VIOLATION)
 cd /verif
-for p in benign/*.diff; do
+for p in benign/${1:-*}.diff; do
   id=$(basename $p | cut -d- -f1)
   out=$(bin/try_patch.sh $p $id 2>&1)
   if echo "$out" | grep -q "^VIOLATION"; then echo "ALARM  $(basename $p .diff)  $(echo "$out" | grep -m1 '^violation' | cut -c12-120)";
